@@ -20,6 +20,7 @@ import json
 import os
 
 import vlib
+from props import sozu_compose
 
 PID = "C08"
 
@@ -92,6 +93,8 @@ def generator_families(thorough):
 def run(tier, replay=None):
     rep = vlib.Report(PID, tier)
     wd = vlib.workdir(PID)
+    # the composed leg (spec/Sozu.tla: main process + real workers): convergence of every worker on the main process's view
+    sozu_compose.run_leg(rep, tier, PID, replay)
     bins = vlib.cargo_build(["replay_workerctl", "drive_workerctl"])
     open_findings = [e for e in vlib.load_findings(PID) if e.get("status") == "open" and e.get("deviation")]
     devs = sorted(e["deviation"] for e in open_findings)
